@@ -473,3 +473,120 @@ func isLineParam(f *ssa.Function, i int, depth int) bool {
 	}
 	return false
 }
+
+// checkWordSeparator: R05.4. Horizontal white space of every kind (blank, tab, carriage return, Unicode spaces) separates
+// words in the same way. On every path through one iteration of the rune loop on which the decoded rune is appended to a
+// word that is already open, unicode.IsSpace was called on that rune and returned false - the library predicate itself,
+// not a local approximation of it (an ASCII table that forgets '\r' keeps the carriage return of a CRLF line ending
+// inside the last word of the line).
+func checkWordSeparator(c *Ctx, p *core.Prog) {
+	fn := p.Func(v2pkg, "tokenizeStream")
+	if fn == nil {
+		return
+	}
+	var dec *ssa.Call
+	for _, call := range core.CallsIn(fn) {
+		if core.StaticCalleeName(call.Common()) == "unicode/utf8.DecodeRune" {
+			dec, _ = call.(*ssa.Call)
+		}
+	}
+	if dec == nil {
+		return // reported by R03.9
+	}
+	var header *ssa.BasicBlock
+	for d := dec.Block(); d != nil && header == nil; d = d.Idom() {
+		for _, pr := range d.Preds {
+			if d.Dominates(pr) {
+				header = d
+			}
+		}
+	}
+	if header == nil {
+		return
+	}
+	inLoop := func(b *ssa.BasicBlock) bool { return header.Dominates(b) && reaches(b, header) }
+	var runeVal ssa.Value
+	for _, r := range *dec.Referrers() {
+		if ex, ok := r.(*ssa.Extract); ok && ex.Index == 0 {
+			runeVal = ex
+		}
+	}
+	derivesFromRune := func(v ssa.Value) bool {
+		for d := 0; d < 6 && v != nil; d++ {
+			if v == runeVal {
+				return true
+			}
+			switch x := v.(type) {
+			case *ssa.Call:
+				if core.StaticCalleeName(&x.Call) == "unicode.ToLower" {
+					v = x.Call.Args[0]
+					continue
+				}
+			case *ssa.Phi:
+				for _, e := range x.Edges {
+					if e == runeVal {
+						return true
+					}
+					if call, ok := e.(*ssa.Call); ok && core.StaticCalleeName(&call.Call) == "unicode.ToLower" && call.Call.Args[0] == runeVal {
+						return true
+					}
+				}
+			}
+			return false
+		}
+		return false
+	}
+	nPaths, nAppend := 0, 0
+	bad := ""
+	for _, pr := range header.Preds {
+		if !inLoop(pr) {
+			continue
+		}
+		paths, ok := eng.EnumPaths(header, pr, func(b *ssa.BasicBlock) bool { return !inLoop(b) }, 20000)
+		if !ok {
+			c.R.Undecided("R05.4", "tokenizeStream: word separator", p.Pos(dec.Pos()), "too many paths through one iteration")
+			return
+		}
+		for _, pa := range paths {
+			nPaths++
+			// does the path append the decoded rune itself to a buffer (utf8.AppendRune(buf, r or ToLower(r)))?
+			appends, wordOpen := false, false
+			for _, b := range pa.Blocks {
+				for _, in := range b.Instrs {
+					if call, ok := in.(*ssa.Call); ok && core.StaticCalleeName(&call.Call) == "unicode/utf8.AppendRune" && derivesFromRune(call.Call.Args[1]) {
+						appends = true
+					}
+				}
+			}
+			// ... while a word is open: the path took `len(buf) == 0` false (or `len(buf) > 0` true)
+			for _, l := range pa.Lits {
+				if bo, ok := l.Cond.(*ssa.BinOp); ok {
+					if call, isCall := bo.X.(*ssa.Call); isCall {
+						if bi, isB := call.Call.Value.(*ssa.Builtin); isB && bi.Name() == "len" {
+							if k, isK := core.ConstInt(bo.Y); isK && k == 0 && ((bo.Op == token.EQL && !l.Truth) || (bo.Op == token.GTR && l.Truth) || (bo.Op == token.NEQ && l.Truth)) {
+								wordOpen = true
+							}
+						}
+					}
+				}
+			}
+			if !appends || !wordOpen {
+				continue
+			}
+			nAppend++
+			tested := false
+			for _, l := range pa.Lits {
+				if call, ok := l.Cond.(*ssa.Call); ok && !l.Truth && core.StaticCalleeName(&call.Call) == "unicode.IsSpace" && len(call.Call.Args) == 1 && call.Call.Args[0] == runeVal {
+					tested = true
+				}
+			}
+			if !tested && bad == "" {
+				bad = "a path appends the decoded rune to an open word without unicode.IsSpace(r) having returned false on it"
+			}
+		}
+	}
+	c.R.Check(bad == "", "R05.4", "tokenizeStream: a rune joins an open word only after unicode.IsSpace said it is not white space", p.Pos(dec.Pos()),
+		fmt.Sprintf("%d paths through one iteration, %d append the rune to an open word, all behind unicode.IsSpace(r) == false", nPaths, nAppend),
+		bad+": the test for the end of a word is something else than the library predicate (an ASCII fast path, a table), so some kind of white space - '\\r' of a CRLF line ending, a Unicode space - stays inside a word and changing the white space of a text changes its tokens")
+	c.R.RequireMin("R05.4", "iteration paths that append to an open word", nAppend, 1)
+}
